@@ -626,6 +626,35 @@ def case_infinite(ctx, i):
         if not (abs(e_mpo - e_ref) <= 1e-9 * max(1.0, abs(e_ref))):
             ctx.violation('infinite:MPO-energy-density-differs-from-recorded-terms', 'H_MPO.expectation_value = %r, dense window sum = %r' % (e_mpo, e_ref), case)
             return
+        # nearest-neighbour bond operators of the infinite model (from the terms and from the MPO): in a basis product state their
+        # diagonal matrix elements add up to the energy per unit cell; bond_energies reports them bond by bond
+        try:
+            Hb = m.calc_H_bond()
+        except (ValueError, AssertionError):
+            Hb = None
+        if Hb is not None and L >= 2 and all(hb is not None for hb in Hb):
+            from tenpy.models.model import MPOModel, NearestNeighborModel
+            ctx.count('infinite.bond_models')
+
+            def bond_diag(hb, j):
+                a, b = p_state[(j - 1) % L], p_state[j % L]
+                hd = np.transpose(hb.to_ndarray(), [hb.get_leg_index(l) for l in ('p0', 'p1', 'p0*', 'p1*')])
+                return hd[a, b, a, b]
+
+            for name_, bonds in (('calc_H_bond', Hb), ('calc_H_bond_from_MPO', MPOModel(lat, H).calc_H_bond_from_MPO())):
+                if any(hb is None for hb in bonds) or len(bonds) != L:
+                    ctx.violation('infinite:%s:missing-bond' % name_, '%d bonds for %d sites' % (len([hb for hb in bonds if hb is not None]), L), case)
+                    return
+                e_b = sum(bond_diag(hb, j) for j, hb in enumerate(bonds))
+                if not (abs(e_b - e_ref) <= 1e-9 * max(1.0, abs(e_ref))):
+                    ctx.violation('infinite:%s:bond-operators-do-not-add-up-to-H%s' % (name_, ':explicit_plus_hc' if explicit else ''),
+                                  'sum over the bonds of a unit cell %r, energy per unit cell of the recorded terms %r' % (e_b, e_ref), case)
+                    return
+            be = np.asarray(NearestNeighborModel(lat, Hb).bond_energies(psi))
+            exp_be = np.array([bond_diag(hb, j) for j, hb in enumerate(Hb)])
+            if be.shape != exp_be.shape or not (np.max(np.abs(be - exp_be)) <= 1e-9 * max(1.0, np.max(np.abs(exp_be)))):
+                ctx.violation('infinite:bond_energies:not-the-energy-of-bond-(i-1,i)', 'got %r expected %r' % (be.tolist(), exp_be.tolist()), case)
+                return
         # window of the infinite MPO (boundary vectors IdL / IdR): exactly the terms that lie completely inside the window,
         # i.e. all translates (by whole unit cells) of the recorded terms that fit
         dloc = [s_.dim for s_ in sites]
